@@ -69,6 +69,7 @@ fn now_stub() -> SystemTime {
     unsafe { SystemTime::UNIX_EPOCH + Duration::new(NOW_SECS, NOW_NANOS) }
 }
 
+/// NOT REGISTERED (kani/harnesses.json): CBMC did not finish this harness within 25 minutes (SystemTime/Duration arithmetic).
 /// C13-T3 (complete over every clock reading and every quote timestamp below 2^40 s, nanosecond resolution): a quote is
 /// expired exactly when it is from the future or its age in whole seconds exceeds the limit
 #[kani::proof]
